@@ -168,8 +168,16 @@ def job_kmeans(P, K, D, N, via):
     P.run("kmeans-%s" % via, sc_kmeans, dict(K=K, D=D, N=N, via=via), validate=1)
 
 
+def job_ivector(P, C, D, t):
+    from . import c10
+
+    for us in (True, False):
+        for zc in (None, 0, C - 1):
+            P.run("ivector-mstep-sigma%d-zero%s" % (us, zc), c10.sc_mstep, dict(C=C, D=D, t=t, update_sigma=us, zero_comp=zc), linalg="closed" if t == 1 else "uf", validate=1)
+
+
 def jobs(tier):
-    out = []
+    out = [("ivector@C2D1t1", "job_ivector", dict(C=2, D=1, t=1)), ("ivector@C2D2t2", "job_ivector", dict(C=2, D=2, t=2))]
     for (C, D) in SIZES[tier]:
         for tr in ("ml", "map"):
             out.append(("gmm-%s@C%dD%d" % (tr, C, D), "job_gmm", dict(C=C, D=D, trainer=tr)))
